@@ -187,8 +187,8 @@ def live_reader_at_reads(ctx, chk, rid):
                 key="%s|%s|read-without-live-reader" % (rid, _fn(bid)),
                 msg="bytes are fetched through a pointer into the mapping after the Reader that pinned it was dropped "
                     "(file growth can replace and unmap the mapping; relocation can move the region)")
-    if n < 8:
-        raise AnchorMissing("expected >= 8 pointer reads of mapped bytes in vecdb, found %d" % n)
+    if n < 4:
+        raise AnchorMissing("expected >= 4 pointer reads of mapped bytes in vecdb, found %d" % n)
 
 
 def entry_bytes_recomputed(ctx, chk, rid):
@@ -276,12 +276,12 @@ def run(ctx, chk):
                        detail={"function": bid, "classes": sorted(cl), "site": t.get("span")},
                        key="E1|%s|%s|%s" % (fn, kind, "TOTAL" if "TOTAL" in cl else "NONE"),
                        msg="a read of mapped/file bytes is %s" % why)
-    if n_sites < 20:
-        raise AnchorMissing("expected >= 20 unchecked read sites in vecdb, found %d" % n_sites)
+    if n_sites < 10:
+        raise AnchorMissing("expected >= 10 unchecked read sites in vecdb, found %d" % n_sites)
     # constructors of PARAM-bounded sources: every caller passes a LOGICAL/PHYS length
     ctors = sorted(bid for bid in P.bodies if re.search(r"sources::.*::(new_from_parts|from_region)$", bid))
-    if len(ctors) < 5:
-        raise AnchorMissing("expected >= 5 source constructors, found %d" % len(ctors))
+    if len(ctors) < 3:
+        raise AnchorMissing("expected >= 3 source constructors, found %d" % len(ctors))
     for cid in ctors:
         cb = P.bodies[cid]
         lenp = [l for l in range(1, cb.arg_count + 1) if cb.name_of.get(l) in ("stored_len", "len")]
@@ -365,8 +365,8 @@ def run(ctx, chk):
                 ok, why = False, "published length of unknown class %s" % sorted(cl)
             chk.oblige("E2 %s publishes the shared length: %s" % (fn, why), ok, detail={"function": bid, "classes": sorted(cl)},
                        key="E2|%s" % fn, msg="the shared length may only be published for data that is on disk: %s" % why)
-    if pubs < 8:
-        raise AnchorMissing("expected >= 8 publications of the shared length, found %d" % pubs)
+    if pubs < 4:
+        raise AnchorMissing("expected >= 4 publications of the shared length, found %d" % pubs)
     ar = M(r"vecdb::base::rollback::<impl vecdb::base::read_write::ReadWriteBaseVec<I, T>>::apply_rollback")
     callers = O.callers_of(ar)
     if len(callers) < 2:
